@@ -2,10 +2,12 @@ package props
 
 import (
 	"fmt"
+	"strings"
 	"testing"
 
 	"verif/harness/ast"
 	"verif/harness/ev"
+	"verif/harness/run"
 	"verif/harness/gen"
 	"verif/harness/jsonx"
 
@@ -150,6 +152,9 @@ func c02Body(t *rapid.T, id, kind string, cfg c02Cfg, labels map[string]bool) *a
 			tail = ast.Next()
 			labels["has-next"] = true
 		}
+		// (next in a BEGIN / END / BEGINFILE / ENDFILE rule: the README says it "exits the rule
+		// and processes no further rules for the current item"; whether the other rules of that
+		// phase still run is not decided anywhere, so it is not generated - refjq: Unspecified)
 	case 2:
 		tail = ast.Exit()
 		labels["has-exit-in-"+kind] = true
@@ -225,6 +230,11 @@ func genC02(t *rapid.T) (*DCase, map[string]bool) {
 
 	// rules
 	nrules := rapid.IntRange(1, 8).Draw(t, "nrules")
+	if rapid.IntRange(0, 9).Draw(t, "manyrules") == 0 {
+		// beyond every small-size special case of sorting or grouping the rules
+		nrules = rapid.IntRange(13, 40).Draw(t, "nrulesmany")
+		labels["more-than-12-rules"] = true
+	}
 	counts := map[string]int{}
 	var items []*ast.Node
 	for k := 0; k < nrules; k++ {
@@ -278,7 +288,7 @@ func genC02(t *rapid.T) (*DCase, map[string]bool) {
 
 func TestC02(t *testing.T) {
 	rec := start(t, "C02", "exploration",
-		"tracing programs: 1-8 rules drawn from the five kinds in random order (up to 3 of each special kind), each body printing its id and the observables $file / $ / $index, optionally followed by next / exit (bare or guarded by a data condition) and a further print; BEGINFILE rules may assign $ (replacing the root for the pattern rules); patterns absent, constants of every truthiness class, or data conditions; bodiless pattern rules; 1-3 files x 0-3 JSON values per file x 0-2 selectors x root shapes (arrays of 0-4 elements, objects, scalars, null). Expected trace from refjq's rule driver (DESIGN.md 4.1). Non-trivial: >= 2 rule kinds, some kind with >= 2 rules, >= 2 input values. distinct = distinct (program, selectors, input).")
+		"tracing programs: 1-8 rules drawn from the five kinds in random order (up to 3 of each special kind), each body printing its id and the observables $file / $ / $index, optionally followed by next / exit (bare or guarded by a data condition) and a further print; BEGINFILE rules may assign $ (replacing the root for the pattern rules); patterns absent, constants of every truthiness class, or data conditions; bodiless pattern rules; now and then 13-40 rules; fixed long inputs (1000 to 140000 elements in 1 or 7 values, with next taken on every / every other / every third element, directly and inside a function: direct oracle); 1-3 files x 0-3 JSON values per file x 0-2 selectors x root shapes (arrays of 0-4 elements, objects, scalars, null). Expected trace from refjq's rule driver (DESIGN.md 4.1). Non-trivial: >= 2 rule kinds, some kind with >= 2 rules, >= 2 input values. distinct = distinct (program, selectors, input).")
 	defer rec.Finish()
 	rec.Assume("refjq's driver is the documented schedule (DESIGN.md 4.1); object key order in printed values is accepted in any order")
 	rec.Replayer("schedule", replayDiff(false))
@@ -286,10 +296,62 @@ func TestC02(t *testing.T) {
 		return
 	}
 	rec.ReplayTier()
+	shard, nshards := ev.Shard()
+
+	// long inputs: next, exit-free rules and skipped rules over tens of thousands of elements,
+	// values and files behave on the last element as on the first (direct oracle)
+	if shard == 0 {
+		type longCase struct {
+			Prog string `json:"prog"`
+			N    int    `json:"n"`
+			Docs int    `json:"docs"`
+		}
+		progs := []string{
+			`{ n++ ; next } { print "unreachable" } END { print n }`,
+			"{ if ($ % 2 == 0) { next }\nodd++ } { seen++ } END { print odd, seen }",
+			"function skip(v) { if (v % 3 == 0) { next }\nreturn v } { kept += skip($) * 0 + 1 } $ % 3 == 0 { print \"unreachable\" } END { print kept }",
+			`$ < 0 { print "never" } { c++ } END { print c }`,
+		}
+		for _, src := range progs {
+			for _, n := range []int{1000, 40000, 70000, 140000} {
+				for _, docs := range []int{1, 7} {
+					var sb strings.Builder
+					per := n / docs
+					total := 0
+					for d := 0; d < docs; d++ {
+						sb.WriteString("[")
+						for k := 0; k < per; k++ {
+							if k > 0 {
+								sb.WriteString(",")
+							}
+							fmt.Fprint(&sb, total)
+							total++
+						}
+						sb.WriteString("]\n")
+					}
+					o := run.InProc(src, []run.InFile{{Name: "f", Data: []byte(sb.String())}}, nil, run.Opts{Budget: 200_000_000})
+					var want string
+					switch src {
+					case progs[0]:
+						want = fmt.Sprintf("%d\n", total)
+					case progs[1]:
+						want = fmt.Sprintf("%d %d\n", total/2, total/2)
+					case progs[2]:
+						want = fmt.Sprintf("%d\n", total-(total+2)/3)
+					default:
+						want = fmt.Sprintf("%d\n", total)
+					}
+					rec.Case(fmt.Sprintf("long %q %d %d", src, n, docs), n >= 40000, "long-input")
+					if o.Class != "ok" || string(o.Stdout) != want {
+						rec.Violation("long-input", longCase{src, n, docs}, src, fmt.Sprintf("%d elements in %d value(s): outcome %s (%s), output %q, expected %q", total, docs, o.Class, o.Msg, clip(string(o.Stdout)), want))
+					}
+				}
+			}
+		}
+	}
 
 	// exhaustive small scope: every ordered choice of <= 3 rules from the five
 	// kinds x {exit in rule j | next in rule j | none} x 3 fixed configurations
-	shard, nshards := ev.Shard()
 	cfgs := [][]DFile{
 		{{Name: "f0", Docs: []string{`[1,2,3]`}}},
 		{{Name: "f0", Docs: []string{`[1,2]`, `{"k":"x"}`}}, {Name: "f1", Docs: []string{`[]`, `5`}}},
